@@ -15,7 +15,7 @@ pub const DEF: PropDef = PropDef {
     run,
     replay,
     level: "exploration",
-    rule: "bounded-exhaustive (suite - all three ciphers, four hashes, 25519 and P-256 - and key material rotate with the case): for every pattern (38 base; thorough: plus a psk variant each; plus, one level less deep and with a short continuation, every pattern with a psk modifier at EVERY valid position) and both roles, ALL sequences of handshake-phase calls over {write with ample buffer, write with empty buffer, read genuine next message (from a shadow peer), read stale (previous) message, read 10 bytes of garbage} up to depth #messages+1 (thorough: +2); at EVERY node of that tree both conversions (stateful, stateless) and, when they succeed, all length-2 sequences over {transport write, transport read genuine, transport read garbage}; plus random longer sequences. Ephemerals come from the resolver's random source, which yields OTHER bytes while a call the model expects to fail is running than during valid calls (an out-of-phase call that re-draws the live ephemeral then breaks the next genuine message). Model: (position, role). Expected per call: success exactly when the model allows; otherwise State(NotTurnToWrite|NotTurnToRead) before completion, State(HandshakeAlreadyFinished|NotTurnTo..) after it, State(HandshakeNotFinished) for early conversion, State(OneWay) for the forbidden transport direction; after every call is_handshake_finished()==(position==#messages), is_initiator() constant, and while unfinished is_my_turn()==(initiator XOR position odd); a failed call leaves the indicators unchanged. Non-trivial = the sequence contains at least one out-of-phase call; distinct by (pattern, role, sequence)",
+    rule: "bounded-exhaustive (suite - all three ciphers, four hashes, 25519 and P-256 - and key material rotate with the case): for every pattern (38 base; thorough: plus a psk variant each; plus, one level less deep and with a short continuation, every pattern with a psk modifier at EVERY valid position) and both roles, ALL sequences of handshake-phase calls over {write with ample buffer, write with empty buffer, read genuine next message (from a shadow peer), read stale (previous) message, read 10 bytes of garbage} up to depth #messages+1 (thorough: +2); at EVERY node of that tree both conversions (stateful, stateless) and, when they succeed, all length-2 sequences over {transport write, transport read genuine, transport read garbage, manual rekey, automatic rekey} plus transport writes that cannot fit (empty buffer, payload too long: Input in the permitted direction, the state error in the forbidden one); plus random longer sequences. Ephemerals come from the resolver's random source, which yields OTHER bytes while a call the model expects to fail is running than during valid calls (an out-of-phase call that re-draws the live ephemeral then breaks the next genuine message). Model: (position, role). Expected per call: success exactly when the model allows; otherwise State(NotTurnToWrite|NotTurnToRead) before completion, State(HandshakeAlreadyFinished|NotTurnTo..) after it, State(HandshakeNotFinished) for early conversion, State(OneWay) for the forbidden transport direction; after every call is_handshake_finished()==(position==#messages), is_initiator() constant, and while unfinished is_my_turn()==(initiator XOR position odd); a failed call leaves the indicators unchanged. Non-trivial = the sequence contains at least one out-of-phase call; distinct by (pattern, role, sequence)",
     technique: "bounded-exhaustive model-based testing of call sequences (every node of the call tree to the depth bound) + proptest random sequences",
     assumptions: &["where an out-of-phase call also has a malformed argument (empty buffer), either the state error or the input error is accepted: the statement fixes no precedence"],
     panic_is_violation: false,
@@ -34,6 +34,11 @@ pub const T_GARBAGE: u8 = 2;
 pub const T_REKEY_MANUAL: u8 = 3;
 /// rekey_outgoing + rekey_incoming on the endpoint under test, mirrored on the shadow peer
 pub const T_REKEY_AUTO: u8 = 4;
+/// transport write into an EMPTY buffer: in the permitted direction an input error without
+/// effect, in the forbidden direction still the state error
+pub const T_WRITE_SMALL: u8 = 5;
+/// transport write of a payload one byte too long for a message
+pub const T_WRITE_BIG: u8 = 6;
 
 #[derive(Clone, Debug, Serialize, Deserialize)]
 pub struct Case {
@@ -154,7 +159,8 @@ fn oracle(c: &Case, acc: &mut Acc) -> CaseResult {
                 } else {
                     out_of_phase += 1;
                     let allowed: &[SP] = if finished { &[SP::HandshakeAlreadyFinished, SP::NotTurnToWrite] } else { &[SP::NotTurnToWrite] };
-                    let ok = is_state(&res, allowed) || (*op == W_SMALL && res == Err(Error::Input));
+                    // (the state error also when the buffer is too small as well: the call is out of phase first)
+                    let ok = is_state(&res, allowed);
                     ensure!(ok, "{who}: step {step}: out-of-phase write (position {pos}/{nm}, finished={finished}) returned {res:?}, expected State({allowed:?})");
                 }
             },
@@ -225,6 +231,21 @@ fn oracle(c: &Case, acc: &mut Acc) -> CaseResult {
             let (mut nw, mut nr) = (0u64, 0u64);
             for (k, op) in c.t_ops.iter().enumerate() {
                 match *op {
+                    T_WRITE_SMALL | T_WRITE_BIG => {
+                        let big = vec![7u8; 65535 - 16 + 1];
+                        let (payload, mut buf): (&[u8], Vec<u8>) = if *op == T_WRITE_SMALL { (b"abc", vec![]) } else { (&big, vec![0u8; 70000]) };
+                        let res = match &mut et {
+                            T::F(t) => t.write_message(payload, &mut buf),
+                            T::L(t) => t.write_message(nw, payload, &mut buf),
+                        };
+                        if can_write {
+                            t_kept.push(*op);
+                            ensure!(res == Err(Error::Input), "{who}: transport step {k}: a write that cannot fit returned {res:?}, expected Err(Input)");
+                        } else {
+                            out_of_phase += 1;
+                            ensure!(res == Err(Error::State(SP::OneWay)), "{who}: transport step {k}: one-way responder write (with arguments that are invalid as well) returned {res:?}, expected Err(State(OneWay))");
+                        }
+                    },
                     T_WRITE => {
                         let mut buf = vec![0u8; 64];
                         let res = match &mut et {
@@ -405,6 +426,10 @@ pub fn run(ctx: &Ctx) {
                     cases.push(mk(Some(true), vec![]));
                 } else {
                     for stateless in [false, true] {
+                        for extra_op in [T_WRITE_SMALL, T_WRITE_BIG] {
+                            cases.push(mk(Some(stateless), vec![extra_op, T_WRITE, T_READ]));
+                            cases.push(mk(Some(stateless), vec![T_READ, extra_op, T_WRITE]));
+                        }
                         for t in 0..25u8 {
                             // length-2 continuations over {write, read, garbage, manual rekey, auto rekey};
                             // a rekey as second step is followed by one more write and read
@@ -435,7 +460,7 @@ pub fn run(ctx: &Ctx) {
         ctx.tier.pick(20_000, 200_000),
         move || {
             let names = names.clone();
-            (any::<u16>(), any::<u16>(), any::<bool>(), prop::collection::vec(prop_oneof![3 => Just(W_OK), 1 => Just(W_SMALL), 3 => Just(R_GENUINE), 1 => Just(R_STALE), 1 => Just(R_GARBAGE)], 0..14), prop_oneof![1 => Just(None), 3 => any::<bool>().prop_map(Some)], prop::collection::vec(0u8..5, 0..10))
+            (any::<u16>(), any::<u16>(), any::<bool>(), prop::collection::vec(prop_oneof![3 => Just(W_OK), 1 => Just(W_SMALL), 3 => Just(R_GENUINE), 1 => Just(R_STALE), 1 => Just(R_GARBAGE)], 0..14), prop_oneof![1 => Just(None), 3 => any::<bool>().prop_map(Some)], prop::collection::vec(0u8..7, 0..10))
                 .prop_map(move |(pi, pk, initiator, hs_ops, conv, t_ops)| {
                     let (name, nm) = &names[pick(pi, names.len())];
                     let _ = seed;
